@@ -577,8 +577,10 @@ def _norm1(e, ctx):
                 return ('phi', a[1], ('cmp', 'is', a[2], b), ('cmp', 'is', a[3], b))
             if a[0] == 'call' and (_cls_name(a[1]) or "x")[:1].isupper():
                 return ('const', False)             # the result of a constructor call is never None
-            if a[0] in ('tuple', 'list', 'dict', 'set'):
+            if a[0] in ('tuple', 'list', 'dict', 'set', 'slice', 'fstr') or (a[0] == 'call' and a[1] == ('name', 'slice')):
                 return ('const', False)
+            if a[0] == 'const':
+                return ('const', a[1] is None)
         if op == 'not in' and not (b[0] == 'attr' and b[2] == 'features' and a[0] == 'enum'):
             return ('un', 'not', ('cmp', 'in', a, b))
         if op == '>':
@@ -756,6 +758,10 @@ def _norm1(e, ctx):
             return e[3]
         if e[2] == e[3]:
             return e[2]
+        if e[2] == ('const', True) and e[3] == ('const', False):
+            return e[1]                                 # True if c else False
+        if e[2] == ('const', False) and e[3] == ('const', True):
+            return ('un', 'not', e[1])
         # a if a > b else b  /  b if a < b else a  ==  max(a, b);  a if a < b else b == min(a, b)
         c_ = e[1]
         if c_[0] == 'cmp' and c_[1] == '<' and {c_[2], c_[3]} == {e[2], e[3]} and e[2] != e[3]:
